@@ -1391,7 +1391,21 @@ func (z *Decimal) Sub(x, y *Decimal) *Decimal {
 
 	// ±0 - y
 	// x - ±Inf
-	return z.Neg(y)
+	// Like z.Neg(y), but the sign must be flipped before rounding since
+	// the sign affects rounding (and the accuracy is relative to -y).
+	z.acc = Exact
+	z.form = y.form
+	z.neg = !y.neg
+	if y.form == finite {
+		if z != y {
+			z.exp = y.exp
+			z.mant = z.mant.set(y.mant)
+		}
+		if z.prec < y.prec {
+			z.round(0)
+		}
+	}
+	return z
 }
 
 // Uint64 returns the unsigned integer resulting from truncating x
